@@ -45,11 +45,12 @@ class Sys:
         b = np.asarray(self.base_raw, dtype=float)
         return float(b) if b.ndim == 0 else b
 
+    # "bounds_form" in the JSON system: how the bounds are handed over ('int' = integer-typed array when whole numbers, 'list')
     def lb_arg(self):
-        return None if self.lb_raw is None else np.asarray(self.lb_raw, dtype=float)
+        return None if self.lb_raw is None else gens.as_form(self.lb_raw, self.d.get("bounds_form"))
 
     def ub_arg(self):
-        return None if self.ub_raw is None else np.asarray(self.ub_raw, dtype=float)
+        return None if self.ub_raw is None else gens.as_form(self.ub_raw, self.d.get("bounds_form"))
 
     def kwargs(self):
         return dict(lb=self.lb_arg(), ub=self.ub_arg(), K=self.K_arg(), baseline=self.base_arg())
@@ -432,4 +433,20 @@ def proportional_variant(draw, sysd, one_in=5):
         return sysd, False
     out = dict(sysd)
     out["A"] = A2.tolist()
+    return out, True
+
+
+@st.composite
+def whole_number_bounds(draw, sysd, one_in=5):
+    """With probability 1/one_in the (finite) bounds become whole numbers handed over as an integer-typed array or a list of ints
+    (ub in 1..5, lb 0 or 1 where it was positive).  To be applied BEFORE targets are constructed from the system."""
+    ub = sysd.get("ub")
+    if ub is None or not np.all(np.isfinite(np.asarray(ub, dtype=float))) or draw(st.integers(0, one_in - 1)) != 0:
+        return sysd, False
+    n = len(sysd["A"][0])
+    out = dict(sysd)
+    out["ub"] = [float(draw(st.integers(2, 5))) for _ in range(n)]
+    if sysd.get("lb") is not None:
+        out["lb"] = [1.0 if v > 0 else 0.0 for v in np.broadcast_to(np.asarray(sysd["lb"], dtype=float), (n,))]
+    out["bounds_form"] = draw(st.sampled_from(["int", "intlist"]))
     return out, True
